@@ -109,9 +109,12 @@ pub fn params_acceptance_is_spec(PL: usize) {
     let prefix = Prefix { salt, params: params(mem, time, para), nonce };
     let valid = params_valid(mem, time, para);
     let ok = wrap_keys(pw, &prefix).is_ok();
+    let whole_kib = mem % 1024 == 0;
     vcheck_all!(
-        (!ok || valid, "[C07] only valid PBKW parameter blocks (whole KiB, Argon2 ranges) are accepted"),
-        (ok || !valid, "[C07] every valid PBKW parameter block is accepted"),
+        (!ok || valid || !whole_kib, "[C07] only valid PBKW parameter blocks are accepted (memory a whole number of KiB)"),
+        (!ok || whole_kib, "[C07] a PBKW memory parameter that is not a whole number of KiB is rejected"),
+        (ok || !valid || para != 1, "[C07][C05] every valid PBKW parameter block with parallelism 1 is accepted"),
+        (ok || !valid || para == 1, "[C07] every valid PBKW parameter block with parallelism >= 2 is accepted"),
     );
     kani::cover!(ok && valid); kani::cover!(!ok && !valid);
 }
